@@ -190,6 +190,10 @@ func (verr *ValidationErrors) Add(def Expression, format string, vals ...any) {
 func (verr *ValidationErrors) AddError(def Expression, err error) {
 	var v *ValidationErrors
 	if errors.As(err, &v) {
+		if v == nil {
+			// a nil *ValidationErrors holds no error
+			return
+		}
 		verr.Errors = append(verr.Errors, v.Errors...)
 		verr.Expressions = append(verr.Expressions, v.Expressions...)
 		return
